@@ -44,6 +44,8 @@ CLAIMS = {
          "Models Adder/StripedModel.v, Adder/SimpleModel.v. Axiom-free."),
  "C10": ("5.10", "Coq theorems for any number of concurrent reporters: bucket ids are never shared, the current bucket is never also archived, carried buckets are in no reservoir (so trimAndSum counts nothing twice) and the counters of all buckets together equal the number of executed report-adds modulo 2^64 (nothing invented, nothing lost, CAS losers and back-in-time events included); sequentially the window returns exactly the reference window's counts for every tick stream. The upper bound for counts returned DURING concurrency is not stated as a theorem (monitor + correspondence only). " + TIE,
          "Model Breaker/BreakerModel.v (reservoir = weakly-consistent-iterator specification object, adders = counters). Axiom-free."),
+ "C14": ("5.14", "PARTIAL. What is machine-checked: the table of every struct-field access and every sync-object method call is regenerated from the current Go sources on every run (tools/accesstab, go/types) and Coq decides by computation that each access obeys the protection class declared for its location (atomic / immutable-after-construction / guarded-by-mutex / goroutine-owned; exact list of mutating sync call sites), with a proved soundness lemma for the decision procedure. Data-race freedom itself (discipline => happens-before ordering under the Go memory model) is an informal argument, not a theorem. A -race build of stress workloads over the whole concurrent-safe API runs on every check as the search for a concrete race.",
+         "Model Race/Discipline.v + generated build/gen/AccessTable.v. Lock-held regions approximated by enclosing functions; user-supplied callbacks outside the table. Axiom-free."),
  "C15": ("5.15", "Coq theorems: one goroutine using the lock-free queue (Offer incl. nil, Poll, Peek, IsEmpty, Size, Iterator/HasNext/Next/Remove) gets exactly the results of a plain list object; after ANY concurrent execution Size, further FIFO use and a full drain agree with the elements offered and not yet removed; the mutex queue is linearizable over its API. " + TIE,
          "Models Queue/JdkModel.v, Queue/MutexModel.v. Size saturation at MaxInt32 and int32(l.Len()) wrap excluded by hypothesis (fewer than 2^31-1 elements). Axiom-free."),
  "C16": ("5.16", "PARTIAL. Proved: MutexAdder over the whole API and AtomicAdder/AtomicF64Adder over Add/Inc/Dec/Sum/Store/Reset are linearizable single numbers. For JDKAdder/JDKF64Adder/RandomCellAdder the single-threaded and between-phases reading (Store with a grown table) is covered by the correspondence (sequential scripts, phased scenarios) and the reference-number monitor, and by Adder/StripedSeq.v when present. " + TIE,
